@@ -161,7 +161,7 @@ func findEndTime(moov *mp4.MoovBox, durationMS int) (endTime, endTimescale uint6
 	stss := stbl.Stss
 	if stss != nil {
 		foundSyncFrame := false
-		for sampleNr := lastSampleNr; sampleNr <= stss.SampleNumber[len(stss.SampleNumber)-1]; sampleNr++ {
+		for sampleNr := lastSampleNr; len(stss.SampleNumber) > 0 && sampleNr <= stss.SampleNumber[len(stss.SampleNumber)-1]; sampleNr++ {
 			if stss.IsSyncSample(sampleNr) {
 				lastSampleNr = sampleNr - 1
 				foundSyncFrame = true
